@@ -13,7 +13,7 @@ mkdir -p $C/merged
 # a scratch copy of the tree under test (the cover tool needs the harness files inside the module, lib/vlib.py)
 rsync -a --exclude .git ${VERIF_REPO:-/repo}/ $C/tree/
 export VERIF_REPO=$C/tree
-IDS=${*:-$(ls checks/c*.py | sed 's/.*\/c\([0-9]*\)\.py/C\1/')}
+IDS=$(echo ${*:-$(ls checks/c*.py | sed 's/.*\/c\([0-9]*\)\.py/C\1/')})
 for id in $IDS; do
   mkdir -p $C/$id $C/merged/$id
   GOCOVERDIR=$C/$id ./check $id --tier quick 2>&1 | grep -E "VIOLATION|quick:" | cut -c1-200
